@@ -336,6 +336,13 @@ def apply_contract(eng, con, fn, args, kwargs, node, fr, caller_label=None, extr
     for nm, text in con.requires:
         v = eng.eval_spec(text, env, con.qual.split(".")[0])
         eng.oblige("%s/pre:%s" % (site, nm), eng.truth(v), clause=text, kind="call-pre")
+    # the callee's body was verified assuming its class invariant at entry: the caller owes it (a helper that is called while the
+    # invariant is temporarily broken must be declared assume_invariant=False and state what it needs in `requires`)
+    recv0 = env.get("self")
+    if isinstance(recv0, VObj) and con.assume_invariant and not con.fresh_self and not con.inline:
+        for spec in all_specs(eng, recv0.cls):
+            for nm, text in spec.invariants:
+                eng.oblige("%s/pre:callee-invariant:%s" % (site, nm), eng.truth(eng.eval_spec(text, {"self": recv0}, spec.module)), clause=text, kind="call-pre")
     eng.emit("contract_call", con=con, env=env, site=site, node=node, frame=fr)
     old = eng.state.snapshot()
     # exceptional conditions are predicates of the PRE-state: evaluate them before anything is havocked
